@@ -32,12 +32,16 @@ Definition selection_message (a : s_auth) : list N :=
 
 Definition u8 (n : N) : N := n mod 256.
 
+(* the extended values that carry a string (DOMAIN, USER_AGENT, PROXY_AUTH): documented length (0..MAX] *)
+Definition ext_is_string (t : N) : bool := (t =? 1) || (t =? 3) || (t =? 4).
+
 (* write_extended_authentication_value: None = Err(Protocol) *)
 Fixpoint ext_values (vals : list (N * list N)) : option (list N) :=
   match vals with
   | [] => Some []
   | (t, v) :: rest =>
-    if 65535 <? lenN v then None
+    if (SOCKS_EXT_EMPTY_REFUSED =? 1) && ext_is_string t && (lenN v =? 0) then None
+    else if 65535 <? lenN v then None
     else match ext_values rest with
          | None => None
          | Some r => Some ([t] ++ to_be 2 (lenN v) ++ v ++ r)
@@ -50,6 +54,7 @@ Definition auth_message (a : s_auth) : option (list N) :=
   | ANone => None
   | AUserPass u p =>
     if (SOCKS_USERPASS_LENGTH_CHECKED =? 1) && ((255 <? lenN u) || (255 <? lenN p)) then None
+    else if (SOCKS_USERPASS_EMPTY_REFUSED =? 1) && ((lenN u =? 0) || (lenN p =? 0)) then None
     else Some ([SOCKS_USERNAME_PASSWORD_AUTHENTICATION_VER; u8 (lenN u)] ++ u ++ [u8 (lenN p)] ++ p)
   | AExt vals =>
     match ext_values vals with
@@ -283,6 +288,19 @@ Definition make_auth_basic (token : list N) : option (list N * list N) :=
   | None => None
   | Some cred => if utf8_valid cred then split_colon cred else None
   end.
+
+(* socks5_forwarder::make_extended_auth: the values that go with a request: the TLS server name, the client's address, its
+   User-Agent when it sent one with a value, and its Basic token or the mark of SNI credentials *)
+Inductive auth_source := SrcSni | SrcBasic (token : list N).
+
+Definition make_extended_auth (domain addr : list N) (agent : option (list N)) (src : auth_source)
+  : list (N * list N) :=
+  [(1, domain); (2, addr)]
+  ++ match agent with
+     | Some ua => if is_nil ua then [] else [(3, ua)]
+     | None => []
+     end
+  ++ [match src with SrcSni => (5, []) | SrcBasic t => (4, t) end].
 
 (* socks5_forwarder.rs: what the outcome of the dialogue becomes for the client of the endpoint:
    (status, X-Warning code) of the response to its CONNECT (see Model/TunnelGate.v for the table) *)
